@@ -15,6 +15,7 @@ import (
 
 	"rscheck/cfgq"
 	"rscheck/core"
+	"rscheck/flow"
 	"rscheck/pat"
 	"rscheck/rules/reent"
 )
@@ -1024,83 +1025,89 @@ func FooterRejectsEveryMismatch(c *core.Ctx, rule string) {
 		return
 	}
 	info := fn.Pkg.TypesInfo
-	g := cfgq.Of(c.Program, fn)
-	var a, b2 ast.Node
-	if _, b := pat.Stmt("_a = _l.crc.Sum64()").Find(info, fn.Decl.Body, nil); b != nil {
-		a = b["_a"]
+	e := flow.New(c.Program)
+	// fixed-width reads are leaves: what they return is "the stored value"
+	e.Opaque = func(f *types.Func) bool {
+		return strings.HasPrefix(f.Name(), "readUint") || strings.HasPrefix(f.Name(), "readInt") || f.Name() == "readFull"
 	}
-	if _, b := pat.Stmt("_b, _err = _l.readUint64()").Find(info, fn.Decl.Body, nil); b != nil {
-		b2 = b["_b"]
+	isComputed := func(x ast.Node) bool {
+		ex, ok := x.(ast.Expr)
+		return ok && pat.Expr("_l.crc.Sum64()").Match(info, ast.Unparen(ex), nil) != nil
 	}
-	if a == nil || b2 == nil {
-		c.Undecidedf(rule, "Footer/values", fn.Decl.Pos(), "computed / stored CRC variables not recognised")
-		return
-	}
-	bb := pat.Binds{"_a": a, "_b": b2}
-	eq := func(blk *cfg.Block, s int) bool {
-		cond := cfgq.CondOf(blk)
-		if cond == nil {
+	isStored := func(x ast.Node) bool {
+		ex, ok := x.(ast.Expr)
+		if !ok {
 			return false
 		}
-		// the edge must establish a == b: true edge of `a == b`, or the false edge of a
-		// condition that is exactly `a != b` (a weaker condition such as `b != 0 && a != b`
-		// being false does not establish equality)
-		cc := ast.Unparen(cond)
-		if pat.Expr("_a == _b").Match(info, cc, bb) != nil {
-			return s == 0
+		call, ok := ast.Unparen(ex).(*ast.CallExpr)
+		if !ok {
+			return false
 		}
-		if pat.Expr("_a != _b").Match(info, cc, bb) != nil {
-			return s == 1
-		}
-		for _, f := range g.EdgeFacts(blk, s) {
-			// a same-package predicate `func eq(x, y T) bool { return x == y }` applied to (a, b)
-			if call, ok := ast.Unparen(f.Expr).(*ast.CallExpr); ok && len(call.Args) == 2 {
-				if op, okc := cmpHelper(c, info, call); okc {
-					same := pat.Same(info, call.Args[0], a) && pat.Same(info, call.Args[1], b2) || pat.Same(info, call.Args[0], b2) && pat.Same(info, call.Args[1], a)
-					if same && (op == token.EQL && f.Val || op == token.NEQ && !f.Val) {
-						return true
-					}
-				}
-			}
-			if pat.Expr("_a == _b").Match(info, f.Expr, bb) != nil && f.Val || pat.Expr("_a != _b").Match(info, f.Expr, bb) != nil && !f.Val {
+		if f := core.CalleeFunc(info, call); f != nil {
+			if core.IsFunc(f, "pkg/rdb", "rdbReader", "readUint64") {
 				return true
+			}
+			if f.Pkg() != nil && f.Pkg().Path() == "encoding/binary" && f.Name() == "Uint64" {
+				if sel, ok := ast.Unparen(call.Fun).(*ast.SelectorExpr); ok && pat.Expr("binary.LittleEndian").Match(info, sel.X, nil) != nil {
+					return true
+				}
 			}
 		}
 		return false
 	}
-	w := g.Path(cfgq.Query{From: g.Entry(), AvoidEdge: eq, TargetExit: func(blk *cfg.Block, k cfgq.ExitKind) bool {
-		if k == cfgq.ExitFall {
-			return true
-		}
-		if k != cfgq.ExitRet {
+	sawCompare := false
+	equal := func(f cfgq.Fact) bool {
+		p := ast.Unparen(flow.Positive(f))
+		if call, ok := p.(*ast.CallExpr); ok && len(call.Args) == 2 {
+			// a predicate helper that was not expanded (e.g. bytes-level compare): not decided here
 			return false
 		}
-		return cfgq.ClassifyReturn(info, fn.Decl.Body, blk.Nodes[len(blk.Nodes)-1].(*ast.ReturnStmt)) == cfgq.RetNilErr
-	}})
-	if w != nil {
-		// is there any comparison of the two values in Footer at all? if they are handed to
-		// something this rule cannot follow, it does not accuse
-		seen := false
-		ast.Inspect(fn.Decl.Body, func(n ast.Node) bool {
-			switch x := n.(type) {
-			case *ast.BinaryExpr:
-				if pat.Expr("_a == _b").Match(info, x, bb) != nil || pat.Expr("_a != _b").Match(info, x, bb) != nil {
-					seen = true
-				}
-			case *ast.CallExpr:
-				if _, ok := cmpHelper(c, info, x); ok {
-					seen = true
-				}
+		be, ok := p.(*ast.BinaryExpr)
+		if !ok {
+			return false
+		}
+		pair := isComputed(be.X) && isStored(be.Y) || isComputed(be.Y) && isStored(be.X)
+		if pair {
+			sawCompare = true
+		}
+		return pair && be.Op == token.EQL
+	}
+	nNil := 0
+	var bad, undec []string
+	for _, cs := range e.Returns(fn, 0) {
+		switch {
+		case cs.Unknown != "":
+			undec = append(undec, cs.Unknown)
+			continue
+		case cs.Zero:
+			// a named error result returned unset is a success too
+		case cs.Expr != nil && core.IsNil(info, ast.Unparen(cs.Expr)):
+		default:
+			continue // an error value
+		}
+		if e.NilInfeasible(cs) {
+			continue // `if err != nil { return err }`: nil does not reach this return
+		}
+		nNil++
+		if !e.AnyUnder(cs.Sites, equal) {
+			where := "-"
+			if len(cs.Sites) > 0 && cs.Sites[0].At.Node() != nil {
+				where = c.Pos(cs.Sites[0].At.Node().Pos())
 			}
-			return true
-		})
-		if !seen {
-			c.Undecidedf(rule, "Footer/success-only-when-equal", fn.Decl.Pos(), "the computed and the stored CRC are not compared in Footer itself or through a recognisable predicate")
-			return
+			bad = append(bad, where)
 		}
 	}
-	c.Check(rule, "Footer/success-only-when-equal", fn.Decl.Pos(), w == nil,
-		"Footer can return success without having found the computed and the stored CRC-64 equal: an RDB whose data bytes were altered is accepted (e.g. whenever the stored checksum field is zero)", w...)
+	switch {
+	case len(undec) > 0:
+		c.Undecidedf(rule, "Footer/success-only-when-equal", fn.Decl.Pos(), "cannot resolve every value Footer returns: %s", strings.Join(undec, "; "))
+	case nNil == 0:
+		c.Undecidedf(rule, "Footer/values", fn.Decl.Pos(), "Footer never returns nil in a way the rule can follow")
+	case len(bad) > 0 && !sawCompare:
+		c.Undecidedf(rule, "Footer/success-only-when-equal", fn.Decl.Pos(), "the computed CRC (l.crc.Sum64()) and the stored one (the little-endian uint64 read from the stream) are not compared in Footer or in a helper the rule can follow")
+	default:
+		c.Check(rule, "Footer/success-only-when-equal", fn.Decl.Pos(), len(bad) == 0,
+			"Footer can return success without having found the computed and the stored CRC-64 equal (success returned at "+strings.Join(bad, ", ")+"): an RDB whose data bytes were altered is accepted (e.g. whenever the stored checksum field is zero)")
+	}
 }
 
 // cmpHelper recognises a call of a same-module function whose body is a single
